@@ -966,17 +966,14 @@ def Tok.isPlainPred (t : Tok) : Prop := ∃ s, t = .pred s ∧ s ≠ [] ∧ ∀ 
 /-- `s` is the token sequence `ts` written with arbitrary skipped whitespace (space, tab, newline) before,
     between and after the tokens; a hop predicate must be followed by whitespace, a symbol or the end. -/
 inductive Spaced : List Tok → List Char → Prop where
-  | nil {ws : List Char} : (∀ c ∈ ws, c ∈ LEX_SKIP) → Spaced [] ws
+  | nil {ws : List Char} : (∀ c ∈ ws, lexSkips c = true) → Spaced [] ws
   | sym {ws : List Char} {t : Tok} {ts : List Tok} {rest : List Char} :
-      (∀ c ∈ ws, c ∈ LEX_SKIP) → t.isSymbol → Spaced ts rest → Spaced (t :: ts) (ws ++ t.text ++ rest)
+      (∀ c ∈ ws, lexSkips c = true) → t.isSymbol → Spaced ts rest → Spaced (t :: ts) (ws ++ t.text ++ rest)
   | pred {ws : List Char} {t : Tok} {ts : List Tok} {rest : List Char} :
-      (∀ c ∈ ws, c ∈ LEX_SKIP) → t.isPlainPred → Spaced ts rest →
+      (∀ c ∈ ws, lexSkips c = true) → t.isPlainPred → Spaced ts rest →
       (rest = [] ∨ ∃ c r, rest = c :: r ∧ stopsPred c = true) → Spaced (t :: ts) (ws ++ t.text ++ rest)
 
 def kinds (l : List Token) : List Tok := l.map (·.kind)
-
-theorem skip_not_single : ∀ c ∈ LEX_SKIP, singleCharTok c = none := by decide
-theorem skip_stops : ∀ c ∈ LEX_SKIP, stopsPred c = true := by decide
 
 theorem single_stops (c : Char) (t : Tok) (h : singleCharTok c = some t) : stopsPred c = true := by
   have hall : SINGLE_CHAR_TOKENS.all (fun p => RESERVED_CHARS.contains p.1) = true := by decide
@@ -1002,7 +999,37 @@ theorem single_stops (c : Char) (t : Tok) (h : singleCharTok c = some t) : stops
     simp only [stopsPred, Bool.or_eq_true]
     exact .inr hr
 
-theorem lexGo_skip (ws : List Char) (hws : ∀ c ∈ ws, c ∈ LEX_SKIP) (s : List Char) (idx : Nat) :
+theorem skip_stops (c : Char) (h : lexSkips c = true) : stopsPred c = true := by
+  simp only [lexSkips, Bool.and_eq_true] at h
+  simp [stopsPred, h.2]
+
+theorem single_mem (c : Char) (t : Tok) (h : singleCharTok c = some t) : c ∈ SINGLE_CHAR_TOKENS.map (·.1) := by
+  unfold singleCharTok at h
+  cases hl : SINGLE_CHAR_TOKENS.lookup c with
+  | none => simp [hl] at h
+  | some n =>
+    have : ∀ (l : List (Char × String)), l.lookup c = some n → c ∈ l.map (·.1) := by
+      intro l
+      induction l with
+      | nil => simp [List.lookup]
+      | cons p l ih =>
+        obtain ⟨a, b⟩ := p
+        simp only [List.lookup, List.map_cons, List.mem_cons]
+        intro h1
+        by_cases hca : c = a
+        · exact .inl hca
+        · have : (c == a) = false := by simpa using hca
+          simp only [this] at h1
+          exact .inr (ih h1)
+    exact this _ hl
+
+theorem skip_not_single (c : Char) (h : lexSkips c = true) : singleCharTok c = none := by
+  have hall : ∀ x ∈ SINGLE_CHAR_TOKENS.map (·.1), lexSkips x = false := by decide
+  cases hs : singleCharTok c with
+  | none => rfl
+  | some t => rw [hall c (single_mem c t hs)] at h; cases h
+
+theorem lexGo_skip (ws : List Char) (hws : ∀ c ∈ ws, lexSkips c = true) (s : List Char) (idx : Nat) :
     ∃ idx', lexGo (ws ++ s) idx none = lexGo s idx' none := by
   induction ws generalizing idx with
   | nil => exact ⟨idx, rfl⟩
@@ -1010,8 +1037,7 @@ theorem lexGo_skip (ws : List Char) (hws : ∀ c ∈ ws, c ∈ LEX_SKIP) (s : Li
     have hw := hws w (by simp)
     obtain ⟨i, hi⟩ := ih (fun c hc => hws c (by simp [hc])) (idx + w.utf8Size)
     refine ⟨i, ?_⟩
-    have hc : LEX_SKIP.contains w = true := by simpa using hw
-    simp only [List.cons_append, lexGo, lexStart, skip_not_single w hw, hc, if_true, List.nil_append]
+    simp only [List.cons_append, lexGo, lexStart, skip_not_single w hw, hw, if_true, List.nil_append]
     exact hi
 
 theorem lexGo_inpred (cs : List Char) (hcs : ∀ c ∈ cs, stopsPred c = false) (rest : List Char) (idx s0 : Nat)
@@ -1068,10 +1094,10 @@ theorem spaced_lex {ts : List Tok} {s : List Char} (h : Spaced ts s) :
         cases hs : singleCharTok c0 with
         | none => rfl
         | some t => rw [single_stops c0 t hs] at hc0; cases hc0
-      have hnk : LEX_SKIP.contains c0 = false := by
-        cases hk : LEX_SKIP.contains c0 with
+      have hnk : lexSkips c0 = false := by
+        cases hk : lexSkips c0 with
         | false => rfl
-        | true => rw [skip_stops c0 (by simpa using hk)] at hc0; cases hc0
+        | true => rw [skip_stops c0 hk] at hc0; cases hc0
       simp only [Tok.text, List.cons_append, lexGo, lexStart, hns, hnk, Bool.false_eq_true, if_false,
         List.nil_append]
       obtain ⟨j, hj⟩ := lexGo_inpred cs (fun x hx => hplain x (by simp [hx])) rest (i + c0.utf8Size) i [c0]
